@@ -70,6 +70,23 @@ def r13ab_rep_structure(ctx):
         filled, noned = [], set()
         src_ok = False
         new = None
+
+        def is_getter(v):
+            return isinstance(v, ast.Call) and isinstance(
+                v.func, ast.Attribute) and v.func.attr == gf.name and \
+                U(v.func.value) == f.self_name
+        # local names holding components of the getter's tuple
+        comp = {}       # local name -> index ; or name -> "tuple"
+        for n in walk_no_nested(f.node):
+            if isinstance(n, ast.Assign) and is_getter(n.value):
+                for t in n.targets:
+                    if isinstance(t, ast.Tuple) and all(
+                            isinstance(e, ast.Name) for e in t.elts):
+                        for i_, e in enumerate(t.elts):
+                            comp[e.id] = i_
+                    elif isinstance(t, ast.Name):
+                        comp[t.id] = "tuple"
+        by_index = {}
         for n in walk_no_nested(f.node):
             if not isinstance(n, ast.Assign):
                 continue
@@ -79,21 +96,35 @@ def r13ab_rep_structure(ctx):
                     continue
                 names = [e.attr for e in elts]
                 vals = n.value.elts if isinstance(n.value, ast.Tuple) and \
-                    len(n.value.elts) == len(elts) else None
-                if isinstance(n.value, ast.Call) and isinstance(
-                        n.value.func, ast.Attribute) and \
-                        n.value.func.attr == gf.name and \
-                        U(n.value.func.value) == f.self_name:
+                    len(n.value.elts) == len(elts) else (
+                        [n.value] if len(elts) == 1 else None)
+                if is_getter(n.value) or (
+                        isinstance(n.value, ast.Name) and
+                        comp.get(n.value.id) == "tuple" and len(elts) > 1):
                     filled = names
                     src_ok = True
                     new = U(elts[0].value)
-                elif vals is not None and all(
-                        isinstance(v, ast.Constant) and v.value is None
-                        for v in vals):
-                    noned |= set(names)
-                elif isinstance(n.value, ast.Constant) and \
-                        n.value.value is None:
-                    noned |= set(names)
+                    continue
+                if vals is None:
+                    continue
+                for e, v in zip(elts, vals):
+                    if isinstance(v, ast.Constant) and v.value is None:
+                        noned.add(e.attr)
+                    elif isinstance(v, ast.Name) and isinstance(
+                            comp.get(v.id), int):
+                        by_index[comp[v.id]] = e.attr
+                        new = U(e.value)
+                    elif isinstance(v, ast.Subscript) and isinstance(
+                            v.value, ast.Name) and comp.get(
+                                v.value.id) == "tuple" and isinstance(
+                                    v.slice, ast.Constant):
+                        by_index[v.slice.value] = e.attr
+                        new = U(e.value)
+        if not src_ok and by_index:
+            src_ok = True
+            filled = [by_index[i_] for i_ in sorted(by_index)]
+            if sorted(by_index) != list(range(len(order))):
+                filled = ["<components %s>" % sorted(by_index)]
         others = set()
         for r2, g in GROUPS.items():
             if r2 != r:
